@@ -2749,6 +2749,207 @@ fn bits_repeat3_u16(x: u16) -> u64 {
     x | (x << 1) | (x << 2)
 }
 
+/// Verification-only access to the private block writers and the index search
+/// (compiled only with `--cfg dds_verif`; see `crate::verif_hook`).
+#[cfg(dds_verif)]
+pub(crate) mod verif {
+    use super::*;
+
+    fn index_list<const I: u8>(values: &[u8]) -> IndexList<I> {
+        let mut list = IndexList::<I>::new();
+        for (i, &v) in values.iter().enumerate().take(16) {
+            list.set(i, v);
+        }
+        list
+    }
+    fn rotation(r: u8) -> Rotation {
+        match r {
+            0 => Rotation::None,
+            1 => Rotation::AR,
+            2 => Rotation::AG,
+            _ => Rotation::AB,
+        }
+    }
+
+    /// Calls `Compressed::mode<mode>(..)`.
+    ///
+    /// `endpoints` holds the endpoints in argument order, each as `r, g, b`
+    /// (modes 0 to 5) or `r, g, b, a` (modes 6 and 7); for modes 4 and 5 the
+    /// two alpha endpoints follow the two colors. `indexes` is the index list
+    /// argument (modes 4 and 5: `color_indexes`), `indexes2` is
+    /// `alpha_indexes` of modes 4 and 5.
+    #[allow(clippy::too_many_arguments)]
+    pub(crate) fn write(
+        mode: u8,
+        partition: u8,
+        rot: u8,
+        index_mode: u8,
+        endpoints: &[u8],
+        p_bits: &[bool],
+        indexes: &[u8],
+        indexes2: &[u8],
+    ) -> [u8; 16] {
+        let e = endpoints;
+        let rgb = |i: usize| (e[3 * i], e[3 * i + 1], e[3 * i + 2]);
+        let rgba = |i: usize| (e[4 * i], e[4 * i + 1], e[4 * i + 2], e[4 * i + 3]);
+        let p = |i: usize| p_bits[i];
+        match mode {
+            0 => {
+                let c = [0, 1, 2, 3, 4, 5]
+                    .map(|i| rgb(i))
+                    .map(|(r, g, b)| Rgb::<4>::new(r, g, b));
+                Compressed::mode0(
+                    0,
+                    partition,
+                    c,
+                    [0, 1, 2, 3, 4, 5].map(p),
+                    index_list::<3>(indexes),
+                )
+            }
+            1 => {
+                let c = [0, 1, 2, 3]
+                    .map(|i| rgb(i))
+                    .map(|(r, g, b)| Rgb::<6>::new(r, g, b));
+                Compressed::mode1(0, partition, c, [0, 1].map(p), index_list::<3>(indexes))
+            }
+            2 => {
+                let c = [0, 1, 2, 3, 4, 5]
+                    .map(|i| rgb(i))
+                    .map(|(r, g, b)| Rgb::<5>::new(r, g, b));
+                Compressed::mode2(0, partition, c, index_list::<2>(indexes))
+            }
+            3 => {
+                let c = [0, 1, 2, 3]
+                    .map(|i| rgb(i))
+                    .map(|(r, g, b)| Rgb::<7>::new(r, g, b));
+                Compressed::mode3(
+                    0,
+                    partition,
+                    c,
+                    [0, 1, 2, 3].map(p),
+                    index_list::<2>(indexes),
+                )
+            }
+            4 => {
+                let c = [0, 1]
+                    .map(|i| rgb(i))
+                    .map(|(r, g, b)| Rgb::<5>::new(r, g, b));
+                let a = [Alpha::<6>::new(e[6]), Alpha::<6>::new(e[7])];
+                let im = if index_mode == 0 {
+                    IndexMode::C2A3
+                } else {
+                    IndexMode::C3A2
+                };
+                Compressed::mode4(
+                    0,
+                    rotation(rot),
+                    im,
+                    c,
+                    index_list::<2>(indexes),
+                    a,
+                    index_list::<3>(indexes2),
+                )
+            }
+            5 => {
+                let c = [0, 1]
+                    .map(|i| rgb(i))
+                    .map(|(r, g, b)| Rgb::<7>::new(r, g, b));
+                let a = [Alpha::<8>::new(e[6]), Alpha::<8>::new(e[7])];
+                Compressed::mode5(
+                    0,
+                    rotation(rot),
+                    c,
+                    index_list::<2>(indexes),
+                    a,
+                    index_list::<2>(indexes2),
+                )
+            }
+            6 => {
+                let c = [0, 1]
+                    .map(|i| rgba(i))
+                    .map(|(r, g, b, a)| Rgba::<7>::new(r, g, b, a));
+                Compressed::mode6(0, c, [0, 1].map(p), index_list::<4>(indexes))
+            }
+            _ => {
+                let c = [0, 1, 2, 3]
+                    .map(|i| rgba(i))
+                    .map(|(r, g, b, a)| Rgba::<5>::new(r, g, b, a));
+                Compressed::mode7(
+                    0,
+                    partition,
+                    c,
+                    [0, 1, 2, 3].map(p),
+                    index_list::<2>(indexes),
+                )
+            }
+        }
+        .block
+    }
+
+    fn unpack<const I: u8>(list: IndexList<I>, n: usize) -> Vec<u8> {
+        (0..n).map(|i| list.get(i)).collect()
+    }
+
+    /// Calls `closest_rgb` (`kind` 0), `closest_rgba` (1) or `closest_alpha`
+    /// (2) with `index_bits` index bits. `pixels` holds 3, 4 or 1 bytes per
+    /// pixel (`closest_alpha`: exactly 16 pixels).
+    pub(crate) fn closest(
+        kind: u8,
+        index_bits: u8,
+        e0: &[u8],
+        e1: &[u8],
+        pixels: &[u8],
+    ) -> (Vec<u8>, u32) {
+        match kind {
+            0 => {
+                let px: Vec<Rgb<8>> = pixels
+                    .chunks(3)
+                    .map(|c| Rgb::new(c[0], c[1], c[2]))
+                    .collect();
+                let (a, b) = (Rgb::new(e0[0], e0[1], e0[2]), Rgb::new(e1[0], e1[1], e1[2]));
+                if index_bits == 2 {
+                    let (l, err) = closest_rgb::<2>(a, b, &px);
+                    (unpack(l, px.len()), err)
+                } else {
+                    let (l, err) = closest_rgb::<3>(a, b, &px);
+                    (unpack(l, px.len()), err)
+                }
+            }
+            1 => {
+                let px: Vec<Rgba<8>> = pixels
+                    .chunks(4)
+                    .map(|c| Rgba::new(c[0], c[1], c[2], c[3]))
+                    .collect();
+                let (a, b) = (
+                    Rgba::new(e0[0], e0[1], e0[2], e0[3]),
+                    Rgba::new(e1[0], e1[1], e1[2], e1[3]),
+                );
+                if index_bits == 2 {
+                    let (l, err) = closest_rgba::<2>(a, b, &px);
+                    (unpack(l, px.len()), err)
+                } else {
+                    let (l, err) = closest_rgba::<4>(a, b, &px);
+                    (unpack(l, px.len()), err)
+                }
+            }
+            _ => {
+                let mut px = [Alpha::<8>::new(0); 16];
+                for (i, &a) in pixels.iter().enumerate().take(16) {
+                    px[i] = Alpha::new(a);
+                }
+                let (a, b) = (Alpha::new(e0[0]), Alpha::new(e1[0]));
+                if index_bits == 2 {
+                    let (l, err) = closest_alpha::<2>(a, b, &px);
+                    (unpack(l, 16), err)
+                } else {
+                    let (l, err) = closest_alpha::<3>(a, b, &px);
+                    (unpack(l, 16), err)
+                }
+            }
+        }
+    }
+}
+
 #[cfg(test)]
 mod tests {
     use super::*;
